@@ -20,11 +20,17 @@
        the model has no non-terminating outcome left (the constructor Hang of the first version is gone).
    (4) ABOUT the tokenizer model (NV.Front.Lexer, compared token for token with the real tokenize): total, every loop
        iteration consumes a byte, exactly one EOF token at the end, at most one token per source byte.
+   (5) ABOUT import processing (NV.Front.ImportGraph: process_imports / load_module_internal with the module cache, over
+       arbitrary finite import graphs; tied to nano_virt / nanoc by running generated graphs through both): the loader WITH
+       the in-progress test terminates on every graph (C09_import_loader_total), acceptance means the loaded modules are
+       complete and acyclic (C09_import_accept_sound); the loader of the pinned tree, WITHOUT that test, does not terminate on
+       a self import or a 2-cycle (C09_import_loader_unguarded_total_refuted) = open finding c09:modules:cycle2:*.
    PARTIAL: the parser as a whole is not modelled (only its loops / recursion structure and the expression fragment); the
-   type checker and import processing are exercised by the robustness runs only. *)
+   type checker is exercised by the robustness runs only; path resolution of imports (resolve_module_path) is not modelled. *)
 From Coq Require Import List String Arith Bool NArith.
 From NV Require Import gen.Tokens gen.ParserConsts Front.RecoveryLoops Front.RecoveryLoopsProofs gen.ParserLoops
-                       Front.ExprParser Front.ExprParserMono Front.ExprParserProofs Front.Lexer Front.LexerProofs.
+                       Front.ExprParser Front.ExprParserMono Front.ExprParserProofs Front.Lexer Front.LexerProofs
+                       Front.ImportGraph Front.ImportGraphProofs.
 Import ListNotations.
 
 (* ---------------------------------------------------------------- (1) generic *)
@@ -139,3 +145,57 @@ Example C09_tokenize_example :
   LOk [LTok K_IDENTIFIER (Some [120%N]) 1 1; LTok K_NUMBER (Some [45%N; 49%N]) 1 2; LTok K_NUMBER (Some [57%N; 55%N]) 1 5;
        LTok K_EOF None 1 5].
 Proof. vm_compute. reflexivity. Qed.
+
+(* ---------------------------------------------------------------- (5) import processing over arbitrary finite import graphs *)
+(* NV.Front.ImportGraph: module.c's process_imports / load_module_internal and its module cache as a state machine.
+   guard = true is the loader with proposed_fixes/C09-circular-import.diff (a cache entry without AST met on entry = the module is still
+   being loaded = "Circular import" diagnostic); guard = false is the loader of the pinned tree, which writes that entry but never reads it.
+   The check ties the model to the tools by running generated import graphs through both (tools/props/c09_streams.py). *)
+
+(* the repaired loader terminates on EVERY finite graph and every program file: fuel = number of files + 1 is never exhausted
+   (measure: files of the graph not yet in the cache; every load that recurses adds one) *)
+Theorem C09_import_loader_total : forall g main, run_guarded g main <> NoFuel.
+Proof. exact run_total. Qed.
+Print Assumptions C09_import_loader_total.
+
+Theorem C09_import_load_total : forall g fuel m c, uncached g c < fuel -> load true g fuel m c <> NoFuel.
+Proof. exact load_total. Qed.
+Print Assumptions C09_import_load_total.
+
+(* an answer other than NoFuel does not depend on the fuel *)
+Theorem C09_import_fuel_irrelevant : forall guard g fuel m c,
+  load guard g fuel m c <> NoFuel -> load guard g (S fuel) m c = load guard g fuel m c.
+Proof. exact load_fuel_mono. Qed.
+Print Assumptions C09_import_fuel_irrelevant.
+
+(* acceptance is sound: all imports of the program are loaded, every loaded module is an existing file whose imports are all loaded, and
+   a rank strictly decreases along every import edge between loaded modules (no cycle was accepted) *)
+Theorem C09_import_accept_sound : forall g main deps c, lookup g main = Some deps -> run_guarded g main = Done c ->
+  (forall d, In d deps -> has_ast c d = true) /\
+  exists rank, forall k, has_ast c k = true ->
+    exists ds, lookup g k = Some ds /\ forall d, In d ds -> has_ast c d = true /\ rank d < rank k.
+Proof. exact run_accept_sound. Qed.
+Print Assumptions C09_import_accept_sound.
+
+(* the loader of the pinned tree (no test of the in-progress entry): "the import phase terminates" is REFUTED -- a file that imports itself,
+   and two files importing each other, exhaust every amount of fuel (on the real tools: unbounded recursion
+   load_module_internal <-> process_imports, SIGSEGV; finding c09:modules:cycle2:nano_virt / :nanoc) *)
+Theorem C09_import_loader_unguarded_total_refuted :
+  exists g main, forall fuel, run false g fuel main = NoFuel.
+Proof. exists [(0, [0])], 0. exact unguarded_self_import_diverges. Qed.
+Print Assumptions C09_import_loader_unguarded_total_refuted.
+
+Theorem C09_import_two_cycle_unguarded_diverges : forall fuel, run false [(0, [1]); (1, [0])] fuel 0 = NoFuel.
+Proof. exact unguarded_two_cycle_diverges. Qed.
+Print Assumptions C09_import_two_cycle_unguarded_diverges.
+
+(* the same graphs and some neighbours on the repaired loader: 0 = the program file *)
+Example C09_import_examples :
+  run_guarded [(0, [0])] 0 = Diag (Cycle 0) /\                                              (* self import *)
+  run_guarded [(0, [1]); (1, [0])] 0 = Diag (Cycle 1) /\                                    (* a <-> b: reported when b is met again *)
+  run_guarded [(0, [1]); (1, [2]); (2, [1])] 0 = Diag (Cycle 1) /\                          (* cycle below the program *)
+  run_guarded [(0, [1; 2]); (1, [3]); (2, [3]); (3, [])] 0 = Done [(1, true); (3, true); (2, true)] /\   (* diamond: 3 loaded once *)
+  run_guarded [(0, [1]); (1, [7])] 0 = Diag (Missing 7) /\                                  (* missing file below the program *)
+  run_guarded [(0, [1; 1]); (1, [])] 0 = Done [(1, true)] /\                                (* the same module twice *)
+  run_unguarded [(0, [1; 2]); (1, [3]); (2, [3]); (3, [])] 0 = Done [(1, true); (3, true); (2, true)].  (* acyclic: both loaders agree *)
+Proof. vm_compute. repeat split; reflexivity. Qed.
